@@ -1459,6 +1459,18 @@ pub fn c02_scan(ck: &mut Checker, sim: &mut Sim, when: &str) {
                             })
                         })
                         .unwrap_or(false);
+                // the stored bytes are the chain's transaction, witnesses included (the
+                // transaction hash does not cover the witnesses)
+                if ok {
+                    if let Some(real) = sim.world.txs.get(&h) {
+                        if real.data().as_slice() != &value[12..] {
+                            findings.push((
+                                "stored_transaction_differs_from_the_committed_one",
+                                format!("transaction {:#x} is stored with bytes (witnesses) that differ from the transaction its block commits to", h),
+                            ));
+                        }
+                    }
+                }
                 // ... and, these scenarios having no reorg, on the proven (main) chain
                 let on_main = sim
                     .world
